@@ -12,7 +12,13 @@ import (
 // to anything reachable from it, or to a variant created before. The prototype is in an ARBITRARY state
 // (havoc) and the decoded override is ARBITRARY (the decoder is replaced by havoc of its target).
 
+// vDecodeHook, when set by a harness, decodes instead of the arbitrary-value generator
+var vDecodeHook func(output any) bool
+
 func verifStub_decodeConfig(_ CreationContext, _ string, _, output any) error {
+	if vDecodeHook != nil && vDecodeHook(output) {
+		return nil
+	}
 	if vC17DecoderRejects {
 		return errors.New("failed decoding config")
 	}
